@@ -18,6 +18,21 @@ CLAIMED = {
  "C11": ("Deductive proof of Meta.Validate (nil iff magic, version and checksum match; error precedence), DB.meta (newest valid meta, fallback to the other, panic only if both invalid), and the page-size probes getPageSize / getPageSizeFromFirstMeta / getPageSizeFromSecondMeta (a size is returned only from a validated meta; all 15 probe offsets are read); QF_BV lemma: one FNV-1a step is injective in the byte and in the state, so any single altered byte changes the checksum.",
          "Trusted: os.File.ReadAt/Stat, pageInBuffer/Page.Meta aliasing (A-unsafe), hash/fnv = FNV-1a-64, A-hash for multi-byte torn writes. The validation tail of DB.mmap and Open's error paths are not yet under contract.",
          "contract-based deductive verification (SSA VC generation + SMT, QF_BV lemma)", "§6 C11"),
+ "C01": ("Deductive proof of the commit protocol on the real Tx.Commit/write/writeMeta/commitFreelist/DB.grow code over a ghost disk model (unsynced-write counter, last write offset, sync counter): the data fdatasync succeeds before the meta page is written (precondition of writeMeta), Commit returns nil only with unsynced == 0, the last write of a successful commit is the meta page at slot txid mod 2, every error return rolls back exactly once, Meta.Write recomputes the checksum.",
+         "Trusted: writeAt/fdatasync/Truncate semantics (A-os-io), sector atomicity and A-hash for torn metas, A-cow/A-tree (Bucket.spill/rebalance contracts are assumed), user commit handlers touch the database only through the public API (A-user). The crash-image lemma itself (recovered state = last acknowledged or in-flight) is argued in DESIGN.md from these obligations, not machine-checked.",
+         "contract-based deductive verification (SSA VC generation + SMT, ghost I/O state)", "§6 C01"),
+ "C03": ("Deductive proof of the writer-lock typestate and transaction life cycle on the real code: beginRWTx/beginTx/Begin (lock acquired and released on every path, txid = newest meta txid + 1 for writers, snapshot txid for readers, registration under metalock), Tx.init, Commit/Rollback/rollback/close (writer lock released exactly once, ErrTxClosed/ErrTxNotWritable paths), DB.Update and its deferred rollback closure (error from fn => rollback and that error returned; lock released on every return).",
+         "Sequential lock-state model of sync.Mutex/RWMutex (A-lib, A-conc): goroutine schedules, data races beyond the lock discipline and lost wake-ups are not decided. User callbacks assumed to use only the public API (A-user).",
+         "contract-based deductive verification (SSA VC generation + SMT, ghost lock state and call counters)", "§6 C03"),
+ "C06": ("Deductive proof that the meta page is written to slot txid mod 2 (Meta.Write, Tx.writeMeta offset = (txid mod 2)*pageSize, one page long), that a writer's txid is the newest committed txid + 1 (Tx.init, so the slot differs from the newest meta's), that DB.allocate hands out either a freelist run or the pages at the old high-water mark and moves the mark by exactly count, and that shared.Free makes a page and its overflow pending and never free.",
+         "A-cow (tree code frees only unreferenced pages) and the per-page offsets of Tx.write's data writes are not under contract; freelist interface contracts are assumed at call sites in package bbolt.",
+         "contract-based deductive verification (SSA VC generation + SMT)", "§6 C06"),
+ "C08": ("Deductive proof on the real code that every error return of Tx.Commit is preceded by exactly one physical Tx.rollback (never the non-physical one), that commitFreelist rolls back on its own error path, that rollback calls freelist.Rollback(txid) and then reloads the freelist from the freelist page named by the newest valid meta (or by a scan when not synced) exactly once, releases the writer lock and leaves disk counters untouched; DB.allocate leaves the high-water mark unchanged on error.",
+         "Trusted: A-os-io, A-os-mmap; Bucket.spill/rebalance/DB.mmap/DB.freepages contracts assumed (opaque). Known finding D3 (failed final sync after the meta write) is documented in DESIGN.md; its relational obligation is not expressible with the current ghost state and is not claimed.",
+         "contract-based deductive verification (SSA VC generation + SMT, ghost call counters)", "§6 C08"),
+ "C16": ("Deductive proof of batch.run on the real code with a higher-order call protocol (Update invokes fn at most once; safelyCall returns fn's result): the failure index is set only by the attempt that just ran and is in range, the failing call is removed, batchMu is released; effect obligations: batch.run is reachable only through trigger's sync.Once, trigger only from Batch and the timer.",
+         "A-lib (sync.Once, time.AfterFunc), A-conc (timer vs size trigger interleavings only through Once), user functions use only the public API (A-user). Exactly-once delivery of results is argued from the loop structure, the per-call send counter is not yet an obligation.",
+         "contract-based deductive verification (SSA VC generation + SMT) + effect inference", "§6 C16"),
 }
 NA_REASON = {}
 
